@@ -47,7 +47,7 @@ def gen_program(rng, force=None):
         for j in range(nas):
             x = rng.randint(-4, 6)
             true_val = x * a + b
-            style = rng.choice(["plain", "plain", "loop", "callee", "nested-if"])
+            style = rng.choice(["plain", "plain", "loop", "callee", "nested-if", "after-continue", "after-break", "after-for", "after-block"])
             wrong = (j == bad_pos) or (k == fail_at and rng.random() < 0.25)
             val = true_val + (rng.choice([1, -1, 7]) if wrong else 0)
             if style == "plain":
@@ -60,8 +60,22 @@ def gen_program(rng, force=None):
             elif style == "callee":
                 arg = -2 if wrong else 3
                 body.append("    let c%d_%d: int = (chk %d)" % (k, j, arg)); fails += 1 if wrong else 0
-            else:
+            elif style == "nested-if":
                 body.append("    if (== 1 1) {\n        assert (== (f%d %d) %d)\n    } else {\n        assert (== 1 2)\n    }" % (k, x, val)); fails += 1 if wrong else 0
+            else:
+                # the assertion comes after control flow in the shadow block itself: a loop whose last executed iteration
+                # ends in `continue` / `break`, a for loop with `continue`, a nested block
+                i, acc = "i%d_%d" % (k, j), "s%d_%d" % (k, j)
+                if style == "after-continue":
+                    pre = ("    let mut %s: int = 0\n    let mut %s: int = 0\n    while (< %s 4) {\n        set %s (+ %s 1)\n        if (== (%% %s 2) 0) {\n            continue\n        }\n"
+                           "        set %s (+ %s %s)\n    }" % (i, acc, i, i, i, i, acc, acc, i))
+                elif style == "after-break":
+                    pre = ("    let mut %s: int = 0\n    while (< %s 10) {\n        set %s (+ %s 1)\n        if (== %s 3) {\n            break\n        }\n    }" % (i, i, i, i, i))
+                elif style == "after-for":
+                    pre = ("    let mut %s: int = 0\n    for %s in (range 0 3) {\n        if (== %s 2) {\n            continue\n        }\n        set %s (+ %s %s)\n    }" % (acc, i, i, acc, acc, i))
+                else:
+                    pre = "    if (== 1 1) {\n        let %s: int = 1\n    }" % i
+                body.append(pre + "\n    assert (== (f%d %d) %d)" % (k, x, val)); fails += 1 if wrong else 0
         L.append("shadow f%d {\n%s\n}" % (k, "\n".join(body)))
         runs.append(["f%d" % k, False, fails])
     # functions without a shadow block, with names that resemble `main` / keywords
@@ -103,6 +117,25 @@ def compile_one(args):
     return (c.returncode, c.stdout.decode(errors="replace"), c.stderr.decode(errors="replace"), os.path.exists(exe), ran)
 
 
+def stale_case(args):
+    """build a passing program to an output path, then put a failing revision with an OLDER (or equal / newer)
+    modification time at the same source path and build to the same output path: the second build must fail"""
+    tdir, td, k, good, bad, age = args
+    d = os.path.join(td, "stale%d" % k)
+    os.makedirs(d, exist_ok=True)
+    p, exe = os.path.join(d, "calc.nano"), os.path.join(d, "calc")
+    nanoc = os.path.join(tdir, "bin", "nanoc_c")
+    open(p, "w").write(good)
+    c1 = subprocess.run([nanoc, p, "-o", exe], cwd=tdir, stdout=subprocess.PIPE, stderr=subprocess.PIPE, timeout=120)
+    if c1.returncode != 0 or not os.path.exists(exe):
+        return ("setup-failed", c1.stdout.decode(errors="replace")[-300:], c1.stderr.decode(errors="replace")[-300:])
+    open(p, "w").write(bad)
+    st = os.stat(exe)
+    os.utime(p, (st.st_atime + age, st.st_mtime + age))
+    c2 = subprocess.run([nanoc, p, "-o", exe], cwd=tdir, stdout=subprocess.PIPE, stderr=subprocess.PIPE, timeout=120)
+    return (c2.returncode, c2.stdout.decode(errors="replace"), c2.stderr.decode(errors="replace"))
+
+
 def run(ctx):
     info = common.prove(ctx, MODULE, [])
     quick = ctx.tier == "quick"
@@ -114,6 +147,22 @@ def run(ctx):
     with tempfile.TemporaryDirectory(prefix="nvc06", dir="/var/tmp") as td:
         with ThreadPoolExecutor(16) as ex:
             res = list(ex.map(compile_one, [(tdir, td, k, p[0]) for k, p in enumerate(progs)]))
+        # rebuild over an existing output
+        good = "fn pct(x: int) -> int {\n    return (/ (* x 100) 4)\n}\nshadow pct {\n    assert (== (pct 1) 25)\n}\nfn main() -> int {\n    return 0\n}\nshadow main {\n    assert (== 1 1)\n}\n"
+        bad = good.replace("(/ (* x 100) 4)", "(/ (* x 100) 5)")
+        ages = [-3 * 86400, -2, 0, 5] if quick else [-30 * 86400, -3 * 86400, -3600, -2, -1, 0, 1, 5, 86400]
+        with ThreadPoolExecutor(8) as ex:
+            stale = list(ex.map(stale_case, [(tdir, td, k, good, bad, a) for k, a in enumerate(ages)]))
+    stale_fail = []
+    for a, (rc, out, err) in zip(ages, stale):
+        ctx.case("stale-output age=%d" % a)
+        if rc == "setup-failed":
+            stale_fail.append({"why": "the passing revision does not build", "stdout": out, "stderr": err})
+        elif rc == 0 or "Shadow test 'pct' FAILED" not in out:
+            stale_fail.append({"why": "a failing revision whose source file is %d s %s than the existing output builds with exit %r and does not name the failing test" % (abs(a), "older" if a < 0 else "newer", rc),
+                               "age_seconds": a, "exit": rc, "stdout": out[-300:], "stderr": err[-300:], "good_source": good, "bad_source": bad,
+                               "replay": "nanoc good.nano -o calc; write bad revision to the same path with mtime = mtime(calc) + age; nanoc again to the same -o"})
+    ctx.cov["stale_output_cases"] = len(ages)
     lines = ["gate 1 " + ",".join("%s:%d:%d" % (n, 1 if e else 0, f) for n, e, f in runs) for _, runs, _ in progs]
     pred = common.batch(driver, lines)[0]
     oracle_fail, disagreements = [], []
@@ -152,8 +201,9 @@ def run(ctx):
     ctx.cov["traces_validated_against_impl"] = len(progs)
     ctx.sample(progs[0][0][:600]); ctx.sample({"runs": progs[1][1]}); ctx.sample({"theorems": info.get("theorems", [])})
     ctx.cov["rule"] = ("generated programs with 2-8 shadow blocks: a false assertion (known by construction) first / last / inside a loop (counted per iteration) / after passing ones / "
-                       "in a callee / under an if / in a skipped extern-using block, plus all-true controls and functions without shadow block; nanoc exit status, FAILED lines and "
+                       "in a callee / under an if / after a loop whose last iteration ends in continue or break, after a for loop with continue, after a nested block / in a skipped extern-using block; rebuild of a failing revision over an existing output with older, equal and newer source time stamps; plus all-true controls and functions without shadow block; nanoc exit status, FAILED lines and "
                        "existence of the -o file compared with the Lean gate model and with the property's iff; distinct by source text")
+    oracle_fail = stale_fail + oracle_fail
     for f in oracle_fail[:3]:
         ctx.violation({"kind": "oracle", "detail": f})
     if not oracle_fail:
